@@ -114,16 +114,19 @@ def run(scn):
         sa = bench.add(AXISlave(sb, name="s", awready=sc["aw"], wready=sc["w"], arready=sc["ar"], lat=sc["lat"], depth=sc["depth"], init=hb))
         store_byte = sa.rbyte
     else:   # ahb2wb
-        hbus = ahb.AHBInterface(data_width=32, address_width=32)
-        wb = wishbone.Interface(data_width=32, adr_width=30, addressing=p["addressing"])
+        dw = p.get("dw", 32)
+        nb = dw // 8
+        lg = nb.bit_length() - 1
+        hbus = ahb.AHBInterface(data_width=dw, address_width=32)
+        wb = wishbone.Interface(data_width=dw, adr_width=32 - lg, addressing=p["addressing"])
         top.submodules.dut = ahb.AHB2Wishbone(hbus, wb)
         wb_mon_bus = wb
         bench = Bench(wrap_top(top), max_cycles=len(ops) * 40 + 300, tail=8, fingerprint=False)
         ma = bench.add(AHBMaster(hbus, ops))
-        shift = 0 if p["addressing"] == "word" else 2
-        sa = bench.add(WBSlave(wb, scn["lat"], name="s", init=lambda a, shift=shift: sum(hb((a >> shift) * 4 + i) << (8 * i) for i in range(4))))
+        shift = 0 if p["addressing"] == "word" else lg
+        sa = bench.add(WBSlave(wb, scn["lat"], name="s", init=lambda a, shift=shift, nb=nb: sum(hb((a >> shift) * nb + i) << (8 * i) for i in range(nb))))
         sa.key_shift = shift
-        store_byte = lambda b_, shift=shift: (sa.read_word((b_ >> 2) << shift) >> (8 * (b_ & 3))) & 0xff  # noqa
+        store_byte = lambda b_, shift=shift, nb=nb, lg=lg: (sa.read_word((b_ >> lg) << shift) >> (8 * (b_ & (nb - 1)))) & 0xff  # noqa
     if wb_mon_bus is not None:
         wbs = wb_mon_bus
         prev = [None]
@@ -264,15 +267,16 @@ def run(scn):
             if r["resp"]:
                 V("ahb_resp", "master", "transfer #%d answered with an error response" % r["op"])
                 break
+            lm = p.get("dw", 32) // 8 - 1
             for b_ in range(o["addr"], o["addr"] + nbytes):
                 if o["write"]:
-                    ref[b_] = (o["data"] >> (8 * (b_ & 3))) & 0xff
+                    ref[b_] = (o["data"] >> (8 * (b_ & lm))) & 0xff
                 else:
                     exp = ref.get(b_, hb(b_))
                     checks += 1
                     raw += b_ in ref
-                    if (r["rdata"] >> (8 * (b_ & 3))) & 0xff != exp:
-                        V("read_data", "master", "AHB read #%d addr %#x size %d byte %#x: got %#04x expected %#04x" % (r["op"], o["addr"], o["size"], b_, (r["rdata"] >> (8 * (b_ & 3))) & 0xff, exp))
+                    if (r["rdata"] >> (8 * (b_ & lm))) & 0xff != exp:
+                        V("read_data", "master", "AHB read #%d addr %#x size %d byte %#x: got %#04x expected %#04x" % (r["op"], o["addr"], o["size"], b_, (r["rdata"] >> (8 * (b_ & lm))) & 0xff, exp))
                         break
             else:
                 continue
